@@ -25,6 +25,7 @@ NT_RULE = ('directed cases enumerate type_dict exhaustively: per quantity type a
            'distinct = distinct canonical JSON of the case')
 REQUIRED_ORACLES = ['T1', 'T2', 'T3', 'T4', 'T5', 'T6', 'T7', 'T8']
 REQUIRED_PROBES = ['convert_unit']
+REQUIRED_CLASSES = ['formula:plain', 'formula:zero_count', 'formula:leading_zero', 'formula:both']
 ASSUMPTIONS = ['unit strings = keys of pmutt.constants.type_dict; constant-table keys as documented in '
                'the accessor docstrings',
                'T5 tolerance = rounding of the tabulated literal: 5e-6 (six significant digits) in general, '
@@ -75,6 +76,9 @@ def directed(tier):
         D.append({'kind': 'elements', 'Z': [lo, min(lo + 9, 118)]})
     D.append({'kind': 'mw', 'elements': {'C': 2, 'H': 6, 'O': 1}, 'formula': 'CH3CH2OH'})
     D.append({'kind': 'mw', 'elements': {'Pt': 100}, 'formula': 'Pt100'})
+    D.append({'kind': 'mw', 'elements': {'C': 2, 'H': 6}, 'formula': 'C2H6O0', 'style': 'zero_count'})
+    D.append({'kind': 'mw', 'elements': {'H': 2, 'O': 1}, 'formula': 'C0H2O1', 'style': 'zero_count'})
+    D.append({'kind': 'mw', 'elements': {'C': 2, 'O': 10}, 'formula': 'C02O010', 'style': 'leading_zero'})
     return D
 
 
@@ -110,9 +114,21 @@ def generate(rng, tier):
             parts += [(s, a), (s, n - a)]
         else:
             parts.append((s, n))
+    # counts spelled out as zero ('C2H6O0', as 'C{}H{}O{}'.format(...) writes a homologous series) and
+    # counts written with leading zeros ('C02'): the written number is the count
+    style = rng.choice(['plain', 'plain', 'zero_count', 'leading_zero', 'both'])
+    if style in ('zero_count', 'both'):
+        absent = [x for x in chemical_symbols[1:113] if x not in el]
+        parts += [(x, 0) for x in rng.sample(absent, rng.randint(1, 2))]
     rng.shuffle(parts)
-    formula = ''.join(s + ('' if (n == 1 and rng.random() < 0.7) else str(n)) for s, n in parts)
-    return {'kind': 'mw', 'elements': el, 'formula': formula}
+    def wr(s, n):
+        if n == 1 and rng.random() < 0.7:
+            return s
+        if n and style in ('leading_zero', 'both') and rng.random() < 0.5:
+            return s + '0' * rng.randint(1, 2) + str(n)
+        return s + str(n)
+    formula = ''.join(wr(s, n) for s, n in parts)
+    return {'kind': 'mw', 'elements': el, 'formula': formula, 'style': style}
 
 
 def install_probes(pr, ctx):
@@ -454,6 +470,7 @@ def _mw(spec, ctx):
     import pmutt
     el = spec['elements']
     ctx.nontrivial(len(el) >= 2)
+    ctx.cls('formula:' + spec.get('style', 'plain'))
     want = math.fsum(c.atomic_weight[s] * n for s, n in el.items())
     got = ctx.call('T8', {'table': 'get_molecular_weight', 'key': 'dict'}, pmutt.get_molecular_weight, dict(el))
     if got is not core.NOVALUE:
@@ -467,6 +484,9 @@ def _mw(spec, ctx):
     # formula must not see the edit (no state shared between calls)
     d = ctx.call('T8', {'table': 'parse_formula', 'key': 'formula'}, pmutt.parse_formula, spec['formula'])
     if d is not core.NOVALUE and isinstance(d, dict) and d:
+        ctx.check('T8', {k: v for k, v in d.items() if v != 0} == el, {'table': 'parse_formula', 'key': 'formula',
+                                                                  'style': spec.get('style', 'plain')},
+                  formula=spec['formula'], got=dict(d), want=el)
         k0 = sorted(d)[0]
         d[k0] = d[k0] + 5
         d['Xx'] = 1
